@@ -34,8 +34,11 @@
 #include <string_view>
 #include <unordered_map>
 #include <vector>
+#include <sys/wait.h>
+#include <unistd.h>
 #include "simgrid/kernel/resource/Action.hpp"
 #include "simgrid/kernel/resource/Model.hpp"
+#include "xbt/asserts.h"
 #include "xbt/log.h"
 #define private public
 #define protected public
@@ -172,103 +175,132 @@ static std::string fresh_compare()
   return o.str();
 }
 
+// one line of a case; returns the answer (without the `<line> => ` prefix)
+static std::string do_line(const std::string& line)
+{
+  std::istringstream is(line);
+  std::string op;
+  is >> op;
+  std::string extra;
+  if (op == "new") {
+    int sel;
+    is >> sel;
+    cs.clear();
+    vs.clear();
+    vid.clear();
+    cid.clear();
+    selective = sel != 0;
+    sys       = System::build("maxmin", selective);
+    dead      = false;
+  } else if (dead) {
+    return "F1";
+  } else if (sigsetjmp(jb, 1) != 0) {
+    dead = true;
+    return "F1";
+  } else if (op == "cnew") {
+    long b, lim;
+    std::string pol;
+    is >> b >> lim >> pol;
+    Constraint* c = sys->constraint_new(nullptr, b / 4.0);
+    c->set_concurrency_limit(static_cast<int>(lim));
+    if (pol == "F")
+      c->unshare();
+    else if (pol == "W")
+      c->set_sharing_policy(Constraint::SharingPolicy::WIFI, {});
+    cid[c] = static_cast<int>(cs.size());
+    cs.push_back(c);
+  } else if (op == "vnew") {
+    long p, b;
+    is >> p >> b;
+    Variable* v = sys->variable_new(fake_action(), p / 4.0, b < 0 ? -1.0 : b / 4.0, 64);
+    vid[v]      = static_cast<int>(vs.size());
+    vs.push_back(v);
+  } else if (op == "expand") {
+    size_t c, v;
+    long w;
+    int force;
+    is >> c >> v >> w >> force;
+    sys->expand(cs.at(c), vs.at(v), w / 4.0, force != 0);
+  } else if (op == "vfree") {
+    size_t v;
+    is >> v;
+    Variable* var = vs.at(v);
+    vs[v]         = nullptr;
+    vid.erase(var);
+    // unlink the fake action from the modified action set first (Action::~Action does the same)
+    if (selective && var->id_->is_within_modified_set())
+      simgrid::xbt::intrusive_erase(*sys->modified_set_, *var->id_);
+    sys->variable_free(var);
+  } else if (op == "vbound") {
+    size_t v;
+    long b;
+    is >> v >> b;
+    sys->update_variable_bound(vs.at(v), b < 0 ? -1.0 : b / 4.0);
+  } else if (op == "vpen") {
+    size_t v;
+    long p;
+    is >> v >> p;
+    sys->update_variable_penalty(vs.at(v), p / 4.0);
+  } else if (op == "cbound") {
+    size_t c;
+    long b;
+    is >> c >> b;
+    sys->update_constraint_bound(cs.at(c), b / 4.0);
+  } else if (op == "solve") {
+    bool was_modified = sys->modified_;
+    sys->solve();
+    if (selective)
+      sys->modified_set_->clear();
+    if (c17 && was_modified)
+      extra = fresh_compare();
+  } else if (op == "setctr") {
+    unsigned long n;
+    is >> n;
+    sys->visited_counter_ = static_cast<unsigned>(n);
+  } else {
+    return "BADOP";
+  }
+  return dump() + extra;
+}
+
+// After an abort or an erase of an unlinked hook (undefined behaviour) the heap of the process cannot be trusted:
+// the rest of that case answers `F1` without touching the library, and at the next `new` the harness re-executes
+// itself on the remaining lines (fresh process image).
 int main(int argc, char** argv)
 {
   c17 = argc > 1 && std::string(argv[1]) == "c17";
   xbt_log_control_set("root.thres:critical");
+  xbt_log_no_loc = 1; // no backtrace on xbt_assert (symbolisation takes seconds)
   signal(SIGABRT, on_abort);
-  signal(SIGSEGV, on_abort); // unlinked-hook erase (undefined behaviour, model: failed) usually ends here
+  signal(SIGSEGV, on_abort);
+  signal(SIGBUS, on_abort);
+  std::vector<std::string> lines;
   std::string line;
-  while (std::getline(std::cin, line)) {
-    if (line.empty())
-      continue;
-    std::istringstream is(line);
-    std::string op;
-    is >> op;
-    std::string extra;
-    if (op == "new") {
-      int sel;
-      is >> sel;
-      // the previous system is leaked on purpose (after an abort its state is unusable)
-      cs.clear();
-      vs.clear();
-      vid.clear();
-      cid.clear();
-      selective = sel != 0;
-      sys       = System::build("maxmin", selective);
-      dead      = false;
-    } else if (dead) {
-      std::cout << line << " => F1\n";
-      continue;
-    } else if (sigsetjmp(jb, 1) != 0) {
-      dead = true;
-      std::cout << line << " => F1\n";
-      continue;
-    } else if (op == "cnew") {
-      long b, lim;
-      std::string pol;
-      is >> b >> lim >> pol;
-      Constraint* c = sys->constraint_new(nullptr, b / 4.0);
-      c->set_concurrency_limit(static_cast<int>(lim));
-      if (pol == "F")
-        c->unshare();
-      else if (pol == "W")
-        c->set_sharing_policy(Constraint::SharingPolicy::WIFI, {});
-      cid[c] = static_cast<int>(cs.size());
-      cs.push_back(c);
-    } else if (op == "vnew") {
-      long p, b;
-      is >> p >> b;
-      Variable* v = sys->variable_new(fake_action(), p / 4.0, b < 0 ? -1.0 : b / 4.0, 64);
-      vid[v]      = static_cast<int>(vs.size());
-      vs.push_back(v);
-    } else if (op == "expand") {
-      size_t c, v;
-      long w;
-      int force;
-      is >> c >> v >> w >> force;
-      sys->expand(cs.at(c), vs.at(v), w / 4.0, force != 0);
-    } else if (op == "vfree") {
-      size_t v;
-      is >> v;
-      Variable* var = vs.at(v);
-      vs[v]         = nullptr;
-      vid.erase(var);
-      // unlink the fake action from the modified action set first (Action::~Action does the same)
-      if (selective && var->id_->is_within_modified_set())
-        simgrid::xbt::intrusive_erase(*sys->modified_set_, *var->id_);
-      sys->variable_free(var);
-    } else if (op == "vbound") {
-      size_t v;
-      long b;
-      is >> v >> b;
-      sys->update_variable_bound(vs.at(v), b < 0 ? -1.0 : b / 4.0);
-    } else if (op == "vpen") {
-      size_t v;
-      long p;
-      is >> v >> p;
-      sys->update_variable_penalty(vs.at(v), p / 4.0);
-    } else if (op == "cbound") {
-      size_t c;
-      long b;
-      is >> c >> b;
-      sys->update_constraint_bound(cs.at(c), b / 4.0);
-    } else if (op == "solve") {
-      bool was_modified = sys->modified_;
-      sys->solve();
-      if (selective)
-        sys->modified_set_->clear();
-      if (c17 && was_modified)
-        extra = fresh_compare();
-    } else if (op == "setctr") {
-      unsigned long n;
-      is >> n;
-      sys->visited_counter_ = static_cast<unsigned>(n);
-    } else {
-      std::cout << line << " => BADOP\n";
-      continue;
+  while (std::getline(std::cin, line))
+    if (not line.empty())
+      lines.push_back(line);
+  bool tainted = false;
+  for (size_t k = 0; k < lines.size(); k++) {
+    if (tainted && lines[k].rfind("new ", 0) == 0) {
+      char name[] = "/tmp/lmmbook-harness-XXXXXX";
+      int fd      = mkstemp(name);
+      if (fd < 0)
+        return 3;
+      FILE* t = fdopen(fd, "w+");
+      for (size_t m = k; m < lines.size(); m++)
+        fprintf(t, "%s\n", lines[m].c_str());
+      fflush(t);
+      fflush(stdout);
+      lseek(fd, 0, SEEK_SET);
+      dup2(fd, 0);
+      unlink(name);
+      execv("/proc/self/exe", argv);
+      return 4;
     }
-    std::cout << line << " => " << dump() << extra << "\n";
+    std::string a = do_line(lines[k]);
+    if (dead)
+      tainted = true;
+    printf("%s => %s\n", lines[k].c_str(), a.c_str());
   }
   return 0;
 }
